@@ -33,6 +33,9 @@ type cOp struct {
 	Parts []model.CPart
 	Slow  int // deliver the body in this many pieces (0 = one)
 	VerID string
+	// Chunked: the put is sent with the aws-chunked framing, its body arriving in two pieces
+	// cut inside the first "chunk-signature=" token (the decoder waits there for the rest)
+	Chunked bool
 }
 
 func (o cOp) String() string {
@@ -445,6 +448,11 @@ func c07Scenarios() []c07Scenario {
 		{name: "slowget-get-other", kinds: allSchedKinds, setupOps: []cOp{{Kind: "put", Key: "k", Body: bigBody("A", 40000)}, {Kind: "put", Key: "k2", Body: bigBody("B", 40000)}},
 			threads: [][]cOp{{{Kind: "get", Key: "k"}}, {{Kind: "get", Key: "k2"}}},
 			final:   []cOp{{Kind: "get", Key: "k"}}},
+		// two aws-chunked uploads of different keys, each stalled inside a framing token: the
+		// decoder of one must not see what the other's transport delivered
+		{name: "chunkedput-chunkedput", kinds: []drv.Kind{drv.Mem, drv.Bolt},
+			threads: [][]cOp{{{Kind: "put", Key: "k", Body: "AAAA", Chunked: true}}, {{Kind: "put", Key: "k2", Body: "BBBBBB", Chunked: true}}},
+			final:   []cOp{{Kind: "get", Key: "k"}, {Kind: "get", Key: "k2"}}},
 		{name: "slowpart-complete", kinds: []drv.Kind{drv.Mem, drv.Bolt}, upload: true, setupOps: []cOp{{Kind: "part", N: 1, Body: "a"}},
 			threads: [][]cOp{{{Kind: "part", N: 1, Body: "bbbb", Slow: 2}}, {{Kind: "complete", Parts: []model.CPart{{N: 1, ETag: eA}}}}, {{Kind: "listparts"}}},
 			final:   []cOp{{Kind: "get", Key: "k"}, {Kind: "listparts"}}},
@@ -560,6 +568,15 @@ func (r *c07Runner) exec(op cOp) cOut {
 		var hdr [][2]string
 		if op.Meta != "" {
 			hdr = drv.H("x-amz-meta-a", op.Meta)
+		}
+		if op.Chunked {
+			wire := drv.EncodeChunked([]byte(op.Body), []int{len(op.Body)})
+			cut := strings.Index(string(wire), "chunk-signature=") + 5
+			fr := drv.NewFrag(wire, []int{cut}, 0, false)
+			fr.OnRead = func() { vsched.Point(vsched.KBodyRead, "", nil) }
+			hdr = append(hdr, [2]string{"X-Amz-Content-Sha256", "STREAMING-AWS4-HMAC-SHA256-PAYLOAD"}, [2]string{"X-Amz-Decoded-Content-Length", strconv.Itoa(len(op.Body))})
+			resp = r.serve(drv.Req{Method: "PUT", Path: b + "/" + op.Key, Header: hdr, BodyReader: fr, DeclLen: ptr64(int64(len(wire)))})
+			break
 		}
 		resp = bodyReq("PUT", b+"/"+op.Key, "", hdr, op.Body, op.Slow)
 	case "get":
